@@ -537,6 +537,25 @@ fn main() {
 		*stats.entry("message_sets").or_insert(0) += 1;
 		*stats.entry("messages_in_sets").or_insert(0) += msgs.len() as u64;
 	}
+	// ---------------- phase D: the replace-existing-entry branch, in both orders ---------------------
+	// The graph already holds scid 1 between nodes (1,2) without chain validation and node 2 has a node
+	// announcement. Delivered: an announcement of scid 2 between (2,3) and a chain-validated announcement
+	// of scid 1 between (1,3) (replacement, e.g. after a reorg). This is outside the hypotheses of
+	// `order_independent` (NoReplaceAll); recorded for the differential check and as an observation.
+	{
+		let ok_ca = |scid, n1, n2, utxo| Op::Ca { scid, n1, n2, same_btc: false, chain_ok: true, verify: true, sigs: [true; 4], utxo };
+		let pre = vec![ok_ca(1, 1, 2, Utxo::NoLookup), Op::Na { node: 2, ts: ctx.t0 - 100_000, payload: 4242, verify: true, sig_ok: true }];
+		let set = vec![ok_ca(2, 2, 3, Utxo::NoLookup), ok_ca(1, 1, 3, Utxo::Value(1000))];
+		let mut dumps = vec![];
+		for order in [[0usize, 1], [1, 0]] {
+			let gd = new_graph();
+			r.rec.directive("reset");
+			for o in &pre { r.exec(&gd, o, "D:"); }
+			for &j in &order { r.exec(&gd, &set[j], "D:"); }
+			dumps.push(r.dump(&gd, true));
+		}
+		stats.insert("replace_branch_order_dependent_on_real_code", (dumps[0] != dumps[1]) as u64);
+	}
 	let elapsed = SystemTime::now().duration_since(UNIX_EPOCH).unwrap().as_secs() - ctx.t0;
 	if elapsed >= WINDOW - 600 { r.rec.oracle_fail(format!("harness ran {}s: wall-clock canonicalisation window exceeded (machinery, not the library)", elapsed)); }
 	rec.notes.insert("rule".into(), format!("per message set: phase A = random interleaving of signed/unsigned/forged/stale/duplicate/conflicting gossip with permanent failures and pruning at threshold times (differential + oracles: forged or rejected message leaves the graph unchanged, last_update monotone); phase B = {} random admissible orders of one message multiset with distinct timestamps (oracle: equal dumps and byte-identical canonical encodings) ; phase C = one random inadmissible order; write/read round trip after A and B. distinct = distinct op-line texts", n_orders));
